@@ -134,7 +134,7 @@ def strategy_case(draw):
             shape = draw(st.sampled_from(HOSTILE))
             features.append(draw(hostile_feature(name, kind, blocks, shape, numeric_ok=cls != "CategoricalDiscretizer")))
         else:
-            spec = draw(feature_spec(name, kind, blocks, "none", None))
+            spec = draw(feature_spec(name, kind, blocks, "none", None, ordinal_numeric=cls != "OrdinalDiscretizer"))
             if cls == "CategoricalDiscretizer" and spec.get("flavour") in ("ints", "floats", "mixed", "flags", "bools"):
                 spec["values"] = [f"v{n}" for n, _ in enumerate(spec["values"])]
                 spec["flavour"] = "str"
